@@ -203,6 +203,7 @@ def body(case, ctx, lm, log, fac):
         prev = got
     if par:
         ctx.obs(fac.logs)
+        ctx.fault("thread_preemption_by_scheduler", fac.switches)
         ctx.probe("thread_switches", fac.switches)
         ctx.probe("preemption_points", fac.points)
         ctx.probe("parallel_sections", fac.calls)
